@@ -365,6 +365,38 @@ structure Dump where
 def stripUser {α : Type} (user : List String) (t : List (Owner × List (String × α))) : List (Owner × List (String × α)) :=
   t.map (fun (o, ps) => if o = .global then (o, ps.filter (fun (p, _) => !user.contains p)) else (o, ps))
 
+/-! ### function objects created at run time (§13.2 function expressions/declarations and `new Function`, §15.3.4.5 bind) -/
+inductive DynKind
+  | node      -- `function(p1..pL){}`
+  | newfn     -- `new Function("p1", …, "pL", "")`
+  | bound     -- `(function(p1..pL){}).bind(null, a1..an)`
+  deriving DecidableEq, Repr
+
+inductive DynField
+  | length      -- "<value of length>|<attrs>"
+  | hasproto    -- "P" when there is an own `prototype`, "-" otherwise
+  | protoattr   -- attributes of `prototype` ("absent" without one)
+  | ctor        -- "self|<attrs>" when prototype.constructor is the function itself
+  | enumown     -- number of enumerable own properties
+  | callerdesc  -- "ok" when Object.getOwnPropertyDescriptor(f, "caller") completes (with any result or a JavaScript exception)
+  deriving DecidableEq, Repr
+
+/-- §15.3.4.5 step 15: length = max(0, L − n) for a bound function; §13.2 step 15: the number of formal parameters -/
+def dynLength (k : DynKind) (L n : Nat) : Nat :=
+  match k with
+  | .bound => L - n          -- truncated subtraction on Nat = max(0, L − n)
+  | _ => L
+
+/-- §13.2 steps 15-18: length {W:false,E:false,C:false}; prototype = new object {W:true,E:false,C:false} whose
+    constructor is F {W:true,E:false,C:true}.  §15.3.4.5: bound functions have no `prototype` property. -/
+def dyn (k : DynKind) (L n : Nat) : DynField → String
+  | .length => toString (dynLength k L n) ++ "|" ++ ro.tok
+  | .hasproto => if k = .bound then "-" else "P"
+  | .protoattr => if k = .bound then "absent" else "w--"
+  | .ctor => if k = .bound then "absent" else "self|w-c"
+  | .enumown => "0"
+  | .callerdesc => "ok"
+
 /-- A property that ES5 does not list (an implementation extension, §16 allows them) must at least be
     non-enumerable, or for-in over built-ins would show it. -/
 def extraTok : String := "nonenum"
